@@ -84,6 +84,30 @@ def snake_capacity(w, q, p8, n, via):
     w.claim('capacity invariant', w.And(w.seq_of(b.bits).length() <= 1023, len(b.refs) <= 4))
 
 
+@obligation('C07.accessors', 'C07', cases=[{'q': q, 'off': off} for q in range(5) for off in range(q + 1)],
+            fuc=[B + 'used_bits', B + 'available_bits', B + 'available_bytes', B + 'available_refs', S + 'remaining_bits', S + 'remaining_refs',
+                 S + 'is_special'],
+            descr='the capacity accessors: for a builder holding p bits (symbolic) and q references used_bits = p, available_bits = 1023 - p, '
+                  'available_bytes = floor((1023 - p) / 8), available_refs = 4 - q; for a slice with r remaining bits and q references of '
+                  'which `off` are consumed remaining_bits = r, remaining_refs = q - off; is_special() iff the cell type is not ordinary')
+def accessors(w, q, off):
+    p = w.int('p', 0, 1023)
+    refs = [Child(i) for i in range(q)]
+    b, pre = mk_builder(w, p, refs)
+    w.claim('used_bits', b.used_bits == p)
+    w.claim('available_bits', b.available_bits == 1023 - p)
+    ab = b.available_bytes
+    w.claim('available_bytes', w.And(8 * ab <= 1023 - p, 1023 - p < 8 * ab + 8))
+    w.claim('available_refs', b.available_refs == 4 - q)
+    r = w.int('r', 0, 1023)
+    s = mk_slice(w, w.bits('R', r), refs, ref_offset=off)
+    w.claim('remaining_bits', s.remaining_bits == r)
+    w.claim('remaining_refs', s.remaining_refs == q - off)
+    w.claim('ordinary slice is not special', s.is_special() is False)
+    for t in (1, 2, 3, 4):
+        w.claim(f'slice of an exotic cell (type {t}) is special', mk_slice(w, w.bits('X', 8), [], type_=t).is_special() is True)
+
+
 @obligation('C07.store_cell', 'C07', cases=[{'q': q, 'j': j} for q in range(5) for j in range(5)],
             fuc=[B + 'store_cell', B + 'store_bits', T + 'extend', T + 'check_overflow'],
             descr='store_cell of a cell with k bits (symbolic) and j refs into a builder with p bits and q refs')
